@@ -303,6 +303,13 @@ def export_geogram_ascii(mesh : RawMeshData, path):
         if hasattr(mesh, "cells") and not mesh.cells.empty():
             n_cells = len(mesh.cells)
             f.write("[ATTS]\n\"GEO::Mesh::cells\"\n{}\n".format(n_cells))
+            if any(len(cell)!=4 for cell in mesh.cells):
+                # not a tetrahedral mesh: the index of the first corner of each cell has to be provided
+                f.write("[ATTR]\n\"GEO::Mesh::cells\"\n\"GEO::Mesh::cells::cell_ptr\"\n\"index_t\"\n4\n1\n")
+                ptr = 0
+                for cell in mesh.cells:
+                    f.write(f"{ptr}\n")
+                    ptr += len(cell)
             for attr_key in mesh.cells.attributes:
                 attr = mesh.cells.get_attribute(attr_key)
                 export_attribute(f, n_cells, "GEO::Mesh::cells", attr, attr_key)
@@ -319,14 +326,15 @@ def export_geogram_ascii(mesh : RawMeshData, path):
                 export_attribute(f, n_corners, "GEO::Mesh::cell_corners", attr, attr_key)
                    
             # Cell faces
-            n_cell_faces = sum([len(c) for c in mesh.cells])
-            cell_adj = mesh.cell_faces.get_attribute("adjacent_cell")
+            n_cell_faces = sum([4 if len(c)==4 else 6 for c in mesh.cells]) # a tetrahedron has 4 facets, a hexahedron 6
             f.write("[ATTS]\n\"GEO::Mesh::cell_facets\"\n{}\n".format(n_cell_faces))
-            f.write("[ATTR]\n\"GEO::Mesh::cell_facets\"\n\"GEO::Mesh::cell_facets::adjacent_cell\"\n\"index_t\"\n4\n1\n")
-            for iC,cell in enumerate(mesh.cells):
-                for iF in range(len(cell)):
-                    # the attribute is indexed by (cell, local facet): one value per cell facet
-                    f.write(f"{cell_adj[(iC,iF)]}\n")
+            if mesh.cell_faces.has_attribute("adjacent_cell"): # computed by save() for tetrahedral meshes
+                cell_adj = mesh.cell_faces.get_attribute("adjacent_cell")
+                f.write("[ATTR]\n\"GEO::Mesh::cell_facets\"\n\"GEO::Mesh::cell_facets::adjacent_cell\"\n\"index_t\"\n4\n1\n")
+                for iC,cell in enumerate(mesh.cells):
+                    for iF in range(len(cell)):
+                        # the attribute is indexed by (cell, local facet): one value per cell facet
+                        f.write(f"{cell_adj[(iC,iF)]}\n")
 
             for attr_key in mesh.cell_faces.attributes:
                 if attr_key=="adjacent_cell" : continue
